@@ -1,0 +1,18 @@
+//go:build verif
+
+/*
+SPDX-License-Identifier: Apache-2.0
+*/
+
+package ws
+
+import "nhooyr.io/websocket"
+
+// verifConn is a connection object that is never used: only its identity is stored in the pool.
+var verifConn = &websocket.Conn{} //nolint:gochecknoglobals
+
+// AddConn calls add with a (non-nil, unused) connection.
+func (v *VerifPool) AddConn(verKey string) { v.p.add(verKey, verifConn) }
+
+// FetchConn calls fetch and tells whether it returned a connection.
+func (v *VerifPool) FetchConn(verKey string) bool { return v.p.fetch(verKey) != nil }
